@@ -748,6 +748,22 @@ pub fn dot_cases(args: &[String]) -> Value {
             let mut g = Gen { r: &mut r, names: ns };
             g.formula(depth, &Scope { fix: HashMap::new() })
         };
+        // two list-versus-list comparisons with the same operands in the same order but split at different places
+        // (they differ only in which edge leads to which operand)
+        let text = if r.gen_bool(0.15) {
+            let items: Vec<String> = (0..r.gen_range(2..=4)).map(|_| POOL[r.gen_range(0..5)].to_string()).collect();
+            let i = r.gen_range(0..=items.len());
+            let mut j = r.gen_range(0..=items.len());
+            if j == i {
+                j = (i + 1) % (items.len() + 1);
+            }
+            let op = ["=", "<=", ">=", "<", ">"][r.gen_range(0..5)];
+            let side = |a: &[String]| format!("[{}]", a.join(", "));
+            format!("({} {} {}) {} ({} {} {}) & {}", side(&items[..i]), op, side(&items[i..]), ["&", "|", "^"][r.gen_range(0..3)],
+                    side(&items[..j]), op, side(&items[j..]), text)
+        } else {
+            text
+        };
         // repeated sub-terms on purpose
         let text = if r.gen_bool(0.4) { format!("({}) & ({}) | [{}, {}] = 1", text, text, text, text) } else { text };
         if let Ok(Ok(pf)) = parse(&text, None) {
